@@ -42,7 +42,8 @@ def main():
         old = json.load(open(f'{V}/seeded/REGRESSION.json'))
     old.update(res)
     json.dump(old, open(f'{V}/seeded/REGRESSION.json', 'w'), indent=1, sort_keys=True)
-    missed = [n for n, r in res.items() if not r.get('detected')]
+    missed = [n for n, r in res.items() if r.get('applied') and not r.get('detected')]
+    print('do not apply to the current HEAD (made before later fix: commits):', [n for n, r in res.items() if not r.get('applied')])
     print('missed:', missed)
     return 1 if missed else 0
 
